@@ -42,3 +42,30 @@ def failure_text(r):
     if 'error' in r:
         return f'{r["type"]}: {r["error"]}'
     return ''
+
+
+def run_cli(cli_args: dict, cwd: str, *, hashseed='0', events=None, rec_opts=None, timeout=900):
+    """Run the real CLI (python -m outrank equivalent) in a fresh interpreter in `cwd`.
+    Returns (returncode, stderr_tail)."""
+    import json
+    import subprocess
+    from harness.pipe_lib import cli_argv
+    argv = cli_argv(**cli_args)
+    env = E.child_env({'PYTHONHASHSEED': hashseed})
+    if rec_opts is not None:
+        env['VERIF_REC_OPTS'] = json.dumps(rec_opts)
+    cmd = [E.PY, os.path.join(E.VERIF, 'harness', 'cli_boot.py'), events or '-', '--'] + argv
+    try:
+        p = subprocess.run(cmd, cwd=cwd, env=env, stdout=subprocess.PIPE, stderr=subprocess.PIPE, timeout=timeout)
+    except subprocess.TimeoutExpired:
+        return 'timeout', ''
+    return p.returncode, (p.stdout.decode('utf-8', 'replace')[-1500:] + p.stderr.decode('utf-8', 'replace')[-2500:])
+
+
+def read_ranks(folder):
+    """pairwise_ranks.tsv as a list of (FeatureA, FeatureB, score-text) in file order."""
+    import csv
+    path = os.path.join(folder, 'pairwise_ranks.tsv')
+    with open(path, newline='', encoding='utf-8') as f:
+        rows = list(csv.reader(f, delimiter='\t'))
+    return rows[0], [tuple(r) for r in rows[1:]]
